@@ -448,7 +448,8 @@ def cmd_check(args) -> int:
         json.dump(doc, f, indent=1, sort_keys=True, default=str)
     print(f"# {prop}: runs={agg['runs']} events={agg['events']} "
           f"nontrivial={len(nontrivial)} known={sum(agg['known'].values())} "
-          f"violations={reported} wall={wall:.1f}s rc={rc}")
+          f"violations={reported} violating_runs={len(agg['violations'])} "
+          f"wall={wall:.1f}s rc={rc}")
     return rc
 
 
